@@ -98,34 +98,44 @@ mod proofs {
     assert!(e.old_end_position == Point::new(p.0, p.1));
     let p = point_of(new, pos + ilen);
     assert!(e.new_end_position == Point::new(p.0, p.1));
-    if len == 4 && pos == 2 && del == 1 && ilen == 2 {
-      kani::cover!(e.start_position.row() > 0 && e.new_end_position.row() > e.start_position.row());
-      kani::cover!(e.old_end_position.row() > e.start_position.row());
+    if pos == len / 2 && del == len - pos && ilen == 2 {
+      kani::cover!(e.new_end_position.row() > e.start_position.row());
+      kani::cover!(e.new_end_byte > e.start_byte);
     }
     // tree-sitter contract: one Tree::edit per text change
     assert!(n_edits == 1, "the old tree must be edited exactly once per text change");
     std::mem::forget(g);
   }
 
-  #[kani::proof]
-  #[kani::unwind(7)]
-  fn c10_input_edit_exact_n4() {
-    let mut len = 0;
-    while len <= 4 {
-      let mut pos = 0;
-      while pos <= len {
-        let mut del = 0;
-        while del <= len - pos {
-          let mut ilen = 0;
-          while ilen <= 2 {
-            one_case(len, pos, del, ilen);
-            ilen += 1;
-          }
-          del += 1;
+  /// all (position, deleted, inserted) size classes for one text length
+  fn all_cases(len: usize) {
+    let mut pos = 0;
+    while pos <= len {
+      let mut del = 0;
+      while del <= len - pos {
+        let mut ilen = 0;
+        while ilen <= 2 {
+          one_case(len, pos, del, ilen);
+          ilen += 1;
         }
-        pos += 1;
+        del += 1;
       }
-      len += 1;
+      pos += 1;
     }
   }
+
+  macro_rules! len_harness {
+    ($name:ident, $len:expr) => {
+      #[kani::proof]
+      #[kani::unwind(7)]
+      fn $name() {
+        all_cases($len);
+      }
+    };
+  }
+  len_harness!(c10_input_edit_exact_len0, 0);
+  len_harness!(c10_input_edit_exact_len1, 1);
+  len_harness!(c10_input_edit_exact_len2, 2);
+  len_harness!(c10_input_edit_exact_len3, 3);
+  len_harness!(c10_input_edit_exact_len4, 4);
 }
